@@ -290,10 +290,85 @@ func descendsFrom(v ssa.Value, fn *ssa.Function) (root ssa.Value, steps int, ok 
 			if x.Call.IsInvoke() && isAccessor(x.Call.Method, x.Call.Args) {
 				return rec(x.Call.Value, n+1, d+1)
 			}
+			// a selector helper of the repository: every value it returns is nil or
+			// obtained from one of its parameters by at least one descent step
+			if sc := x.Call.StaticCallee(); sc != nil {
+				if pi, k, ok := selectorHelper(sc); ok && pi < len(x.Call.Args) {
+					return rec(x.Call.Args[pi], n+k, d+1)
+				}
+			}
 		}
 		return nil, 0, false
 	}
 	return rec(v, 0, 0)
+}
+
+type selInfo struct {
+	param, steps int
+	ok           bool
+}
+
+var selectorMemo = map[*ssa.Function]*selInfo{}
+
+// selectorHelper: h is a repository function with one result; every Return
+// gives nil or a value that descends by ≥1 step from one and the same
+// parameter of h (e.g. "the statements nested under this statement").
+func selectorHelper(h *ssa.Function) (int, int, bool) {
+	if m, ok := selectorMemo[h]; ok {
+		return m.param, m.steps, m.ok
+	}
+	m := &selInfo{}
+	selectorMemo[h] = m // recursion through the helper itself: not a selector
+	if !isRepoFn(h) || len(h.Blocks) == 0 || h.Signature.Results().Len() != 1 || !isTreeType(h.Signature.Results().At(0).Type()) {
+		return 0, 0, false
+	}
+	param, best := -1, -1
+	for _, b := range h.Blocks {
+		ret, ok := b.Instrs[len(b.Instrs)-1].(*ssa.Return)
+		if !ok || b == h.Recover {
+			continue
+		}
+		vals, cell := returnValues(ret)
+		if cell[0] {
+			return 0, 0, false
+		}
+		// a phi of nil and descending values is handled by descendsFrom only when
+		// all edges descend: split the nil edges off here
+		var leaves []ssa.Value
+		if ph, ok := vals[0].(*ssa.Phi); ok {
+			leaves = append(leaves, ph.Edges...)
+		} else {
+			leaves = append(leaves, vals[0])
+		}
+		for _, v := range leaves {
+			if isNilConst(v) {
+				continue
+			}
+			root, k, ok := descendsFrom(v, h)
+			prm, isP := root.(*ssa.Parameter)
+			if !ok || !isP || k < 1 {
+				return 0, 0, false
+			}
+			pi := -1
+			for i, q := range h.Params {
+				if q == prm {
+					pi = i
+				}
+			}
+			if pi < 0 || (param >= 0 && param != pi) {
+				return 0, 0, false
+			}
+			param = pi
+			if best < 0 || k < best {
+				best = k
+			}
+		}
+	}
+	if param < 0 {
+		return 0, 0, false
+	}
+	m.param, m.steps, m.ok = param, best, true
+	return param, best, true
 }
 
 // isAccessor: a method that selects a child of its receiver: protobuf getters
